@@ -226,3 +226,43 @@ def dominion_read_cvrs_groups(S, I, variant):
         for cv, i in zip(r, keep):
             S.holds(f"[session {i}] tally pool = tabulator-batch", cv.attrs["tally_pool"] == f"3-{7 + i}")
             S.holds(f"[session {i}] pooled exactly when its counting group is designated for pooling", I.equal(cv.attrs["pool"], g[i] in pool) is True)
+
+
+@script(["C17"], "sample_from_manifest/lemmas over its contract: sample numbers <-> (batch, position) pairs one-to-one and onto (unbounded)",
+        variants=(("Dominion",), ("Hart",)))
+def manifest_bijection_lemmas(S, I, variant):
+    """No code is run here: consequences of the contract the look-up script proves of the real sample_from_manifest
+    (for a valid sample number s the card returned sits in a batch b at position pos with s = cards before b + pos and pos
+    within the batch's size).  With batch sizes >= 0 (any, including empty batches) that decomposition is unique, so the
+    look-up is a bijection between the valid sample numbers and the (batch, position) pairs."""
+    one_based = variant[0] == "Dominion"
+    c = ctx()
+    B = S.integer("batches", lo=1)
+    sizes = int_col("size", iterm(B), lo=0)
+    F = sizes.fold("+")
+    total = F.at(iterm(B))
+    lo = 1 if one_based else 0
+    valid = lambda b, pos: band(icmp(">=", b, 0), icmp("<", b, B), icmp(">=", pos, lo),
+                                icmp("<=", pos, sizes.at(b)) if one_based else icmp("<", pos, sizes.at(b)))
+    b1, p1, b2, p2 = (z3.Int(c.fresh(n)) for n in ("b1", "p1", "b2", "p2"))
+    # cards before a batch are monotone in the batch index (induction on the distance)
+    mono = S.induction("cards before batch b1+1+d >= cards before batch b1+1",
+                       lambda d: bimp(band(icmp(">=", b1, 0), icmp("<=", iadd(iadd(b1, 1), d), B)),
+                                      icmp(">=", F.at(iadd(iadd(b1, 1), d)), F.at(iadd(b1, 1)))), lo=0)
+    mono2 = S.induction("cards before batch b2+1+d >= cards before batch b2+1",
+                        lambda d: bimp(band(icmp(">=", b2, 0), icmp("<=", iadd(iadd(b2, 1), d), B)),
+                                       icmp(">=", F.at(iadd(iadd(b2, 1), d)), F.at(iadd(b2, 1)))), lo=0)
+    if not (mono(isub(b2, iadd(b1, 1))) and mono2(isub(b1, iadd(b2, 1))) and mono(isub(B, iadd(b1, 1)))):
+        S.undecided("bijection lemmas (monotonicity not discharged)")
+        return
+    sizes.at(b1), sizes.at(b2)          # (size >= 0 facts of the two batches)
+    nonneg = S.induction("cards before any batch >= 0", lambda k: bimp(icmp("<=", k, B), icmp(">=", F.at(k), 0)), lo=0)
+    if not nonneg(b1):
+        S.undecided("bijection lemmas (non-negativity not discharged)")
+        return
+    S.holds("a sample number has at most one decomposition: same s => same batch and same position",
+            bimp(band(valid(b1, p1), valid(b2, p2), icmp("==", iadd(F.at(b1), p1), iadd(F.at(b2), p2))),
+                 band(icmp("==", b1, b2), icmp("==", p1, p2))))
+    s1 = iadd(F.at(b1), p1)
+    S.holds("every (batch, position) pair within the batch's size is the image of a valid sample number (onto)",
+            bimp(valid(b1, p1), band(icmp(">=", s1, lo), icmp("<=", s1, total) if one_based else icmp("<", s1, total))))
